@@ -520,6 +520,41 @@ func runLookalikes() {
 		})
 }
 
+// (a”) numeric and alphanumeric texts AT CAPACITY together with a character-set hint. The hint
+// names the encoding of byte segments; digits and the 45 alphanumeric characters select their own
+// modes, which carry no ECI designator, so the capacity is the mode's own (7089 digits in 40-L)
+// whatever hint accompanies the text. Every version x level x {numeric, alphanumeric} x hint
+// {UTF-8, ISO-8859-1, Shift_JIS} x length {capacity, capacity-1, capacity-3}, forced version.
+func runHintedCapacity() {
+	type hj struct{ v, lv int }
+	var jobs []hj
+	for v := 1; v <= 40; v++ {
+		for lv := 0; lv < 4; lv++ {
+			jobs = append(jobs, hj{v, lv})
+		}
+	}
+	chk.Range("(a'') numeric / alphanumeric texts at capacity WITH a charset hint: version 1..40 x level x {numeric, alphanumeric} x hint {UTF-8, ISO-8859-1, Shift_JIS} x length {capacity, capacity-1, capacity-3}, forced version (and automatic version for version 40): encoded, read back", len(jobs),
+		func(i int) string { return fmt.Sprint(jobs[i]) },
+		func(l *mc.Local, i int) {
+			j := jobs[i]
+			for _, m := range []pmode{pNumeric, pAlnum} {
+				c := capacityOf(m, j.v, j.lv)
+				for _, d := range []int{0, 1, 3} {
+					if c-d < 1 {
+						continue
+					}
+					t, _ := rawPayload(m, c-d, j.v*7+j.lv, nil)
+					for _, cs := range []string{"UTF-8", "ISO-8859-1", "Shift_JIS"} {
+						smallCase(l, t, opt{Level: j.lv, Mask: (j.v + d) % 8, Version: j.v, Charset: cs})
+						if j.v == 40 && d == 0 {
+							smallCase(l, t, opt{Level: j.lv, Mask: -1, Version: 0, Charset: cs})
+						}
+					}
+				}
+			}
+		})
+}
+
 // ---------------------------------------------------------------------------------------------
 // (c) image level
 
@@ -754,6 +789,7 @@ func main() {
 
 	runSmall()
 	runLookalikes()
+	runHintedCapacity()
 	chk.Sample("small", rcase{Sub: "small", Text: "漢\x00", Level: 3, Mask: 5, Version: 1, Charset: "Shift_JIS"})
 
 	runImage()
